@@ -168,8 +168,13 @@ def pair(draw, flavours=("cert", "cert", "cert", "srp", "srp_cert", "anon",
         st.sampled_from(ALPNS), min_size=1, max_size=2, unique=True)))
     case["s_npn"] = draw(st.one_of(st.none(), st.none(), st.lists(
         st.sampled_from(ALPNS), min_size=1, max_size=2, unique=True)))
+    # (absolute, mixed-case, single-label, IDNA and long names are all valid
+    # host names for the library)
     case["sni"] = draw(st.sampled_from([None, None, "example.com",
-                                        "a.b.example.org"]))
+                                        "a.b.example.org",
+                                        "www.example.com.", "A.Example.COM",
+                                        "localhost", "xn--bcher-kva.example",
+                                        ".".join(["a" * 60] * 4)]))
     case["salt"] = draw(st.integers(0, 3))
     return case
 
